@@ -27,6 +27,8 @@ META = {
 
 META['explanation'] += ' ' + 'R1: __lt__ and __eq__ folded over all ordered pairs of the version table (results merged with an AttributeError handler are settled for version operands) and checked against the order axioms and the specified chain. R4: explicit comparison methods answer NotImplemented for operands that are not versions.'
 
+META['explanation'] += ' ' + "Comparisons the abstract run does not fold to a constant are evaluated from the method's own statements (properties, string methods) on model version objects."
+
 HERE = os.path.dirname(os.path.dirname(os.path.abspath(__file__)))
 
 
